@@ -80,7 +80,8 @@ func loadFormat(data []byte) (format uint8, read int, err error) {
 	if err != nil {
 		return 0, 0, err
 	}
-	if len(data) <= read {
+	// An empty payload is valid (e.g. empty RAW data), only the identifier is required.
+	if len(data) < read {
 		return 0, 0, io.ErrUnexpectedEOF
 	}
 
